@@ -144,11 +144,12 @@ impl XmlReader {
             .map_err(|e| WriterError::new(format!("Unable to parse file {file_name}: {e}")))?;
         let mut rust_doc = RustDocument::init(&doc);
 
+        // mark the file before its imports are followed, so that import cycles end here
+        file.processed.store(true, std::sync::atomic::Ordering::SeqCst);
+
         for child in doc.root().children() {
             Self::read(child, files, &mut rust_doc)?;
         }
-
-        file.processed.store(true, std::sync::atomic::Ordering::SeqCst);
 
         Ok(rust_doc)
     }
